@@ -337,6 +337,9 @@ struct Driver {
             auto man = b->store_chunk(cid(id), payload_bytes(pb), std::chrono::seconds(3600));
             auto rec = b->export_chunk_record(cid(id));
             man.expires_at = std::chrono::system_clock::now() + std::chrono::milliseconds(e_ms);
+            // eabs=<s>: an absolute expiry in seconds since the epoch (the codec carries any 64-bit second count within +-9223372036:
+            // expiries centuries in the past or in the future, where subtracting "now" in nanoseconds leaves the 64-bit range)
+            if (c.has("eabs")) man.expires_at = std::chrono::system_clock::time_point(std::chrono::duration_cast<std::chrono::system_clock::duration>(std::chrono::seconds(c.i("eabs"))));
             if (c.has("thr")) man.threshold = static_cast<std::uint8_t>(c.i("thr"));
             if (c.has("drop")) man.shards.resize(std::min<size_t>(man.shards.size(), static_cast<size_t>(c.i("drop"))));
             man.discovery_hints.clear(); man.fallback_hints.clear();
